@@ -330,6 +330,9 @@ def rule_sibling(ctx):
     ctx.check({"device", "name", "state", "children"} <= base_set, "C07.SIBLING", g0.short, "update carries device/name/state/children", f"the base update emitter lacks {sorted({'device', 'name', 'state', 'children'} - base_set)}", fi=g0, text="baseset")
 
 
+# 'accepted by the library's own parser and read back unchanged' needs registry closure and constructor symmetry
+IMPORTS = [('C03', 'C03.REG'), ('C03', 'C03.SYM')]
+
 RULES = [
     ("C07.BRANCH", rule_branch, "getProperties answered with exactly the requested definitions; send_message drops None"),
     ("C07.DISABLED", rule_disabled, "disabled property -> delProperty / no update; enabled -> exactly its enabled elements"),
